@@ -205,6 +205,10 @@ func nameStress(thorough bool) []prog {
 	return out
 }
 
+// aliasNames: identifiers that generated code uses for receivers, parameters and locals
+// (and a control group of ordinary names).
+var aliasNames = []string{"p", "c", "t", "f", "x", "l", "b", "v", "k", "i", "err", "ctx", "iprot", "oprot", "src", "ano", "tmp", "size", "key", "val", "args", "result", "handler", "processor", "success", "name", "seqId", "value", "ok", "thrift", "fmt", "ordinary", "mypkg"}
+
 func structurePrograms() []prog {
 	var out []prog
 	i32 := idl.T(idl.I32)
@@ -236,39 +240,39 @@ func structurePrograms() []prog {
 		return s
 	}
 	{
-		c := mkf("c.thrift", "dag.c")
+		c := mkf("c.thrift", "dag.cpk")
 		cs := leafS(c, "CS")
-		bf := mkf("b.thrift", "dag.b")
+		bf := mkf("b.thrift", "dag.bpk")
 		bf.Includes = []*idl.Include{{Path: "c.thrift", File: c}}
 		bs := &idl.Struct{Cat: "struct", Name: "BS", Fields: []*idl.Field{fld(1, "c", idl.StructT(cs))}}
 		bf.Add(bs)
 		btd := &idl.Typedef{Name: "BT", Type: idl.StructT(cs)}
 		bf.Add(btd)
-		a := mkf("a.thrift", "dag.a")
+		a := mkf("a.thrift", "dag.apk")
 		a.Includes = []*idl.Include{{Path: "b.thrift", File: bf}}
 		a.Add(&idl.Struct{Cat: "struct", Name: "AS", Fields: []*idl.Field{fld(1, "b", idl.StructT(bs)), fld(2, "t", idl.TypedefT(btd)), fld(3, "l", idl.ListOf(idl.TypedefT(btd)))}})
 		out = append(out, prog{"structure:dag", "chain-r", &idl.Program{Files: []*idl.File{a, bf, c}}, true}, prog{"structure:dag", "chain", &idl.Program{Files: []*idl.File{a, bf, c}}, false})
 	}
 	{
-		d := mkf("d.thrift", "dia.d")
+		d := mkf("d.thrift", "dia.dpk")
 		ds := leafS(d, "DS")
-		l := mkf("l.thrift", "dia.l")
+		l := mkf("l.thrift", "dia.lpk")
 		l.Includes = []*idl.Include{{Path: "d.thrift", File: d}}
 		ls := &idl.Struct{Cat: "struct", Name: "LS", Fields: []*idl.Field{fld(1, "d", idl.StructT(ds))}}
 		l.Add(ls)
-		r := mkf("r.thrift", "dia.r")
+		r := mkf("r.thrift", "dia.rpk")
 		r.Includes = []*idl.Include{{Path: "d.thrift", File: d}}
 		rs := &idl.Struct{Cat: "struct", Name: "RS", Fields: []*idl.Field{fld(1, "d", idl.StructT(ds))}}
 		r.Add(rs)
-		top := mkf("top.thrift", "dia.top")
+		top := mkf("top.thrift", "dia.toppk")
 		top.Includes = []*idl.Include{{Path: "l.thrift", File: l}, {Path: "r.thrift", File: r}, {Path: "d.thrift", File: d}}
 		top.Add(&idl.Struct{Cat: "struct", Name: "TS", Fields: []*idl.Field{fld(1, "l", idl.StructT(ls)), fld(2, "r", idl.StructT(rs)), fld(3, "d", idl.StructT(ds))}})
 		out = append(out, prog{"structure:dag", "diamond-r", &idl.Program{Files: []*idl.File{top, l, r, d}}, true})
 	}
 	{
-		x1 := mkf("x/common.thrift", "same.x")
+		x1 := mkf("x/common.thrift", "same.xpk")
 		s1 := leafS(x1, "C1")
-		x2 := mkf("y/common.thrift", "same.y")
+		x2 := mkf("y/common.thrift", "same.ypk")
 		s2 := leafS(x2, "C2")
 		top := mkf("top.thrift", "same.top")
 		top.Includes = []*idl.Include{{Path: "x/common.thrift", File: x1}, {Path: "y/common.thrift", File: x2}}
@@ -286,7 +290,7 @@ func structurePrograms() []prog {
 		out = append(out, prog{"structure:dag", "same-go-namespace-r", &idl.Program{Files: []*idl.File{p2, p1}}, true})
 	}
 	{
-		u := mkf("unused.thrift", "un.u")
+		u := mkf("unused.thrift", "un.upk")
 		leafS(u, "US")
 		top := mkf("top.thrift", "un.top")
 		top.Includes = []*idl.Include{{Path: "unused.thrift", File: u}}
@@ -325,6 +329,28 @@ func structurePrograms() []prog {
 		zf := mkf("nothing.thrift", "only.nothing")
 		out = append(out, prog{"structure:file", "no-definitions", &idl.Program{Files: []*idl.File{zf}}, false})
 	}
+	// go package names equal to identifiers the templates use for locals, parameters and receivers:
+	// the include is used as a field type, container element, constant type, argument, result,
+	// exception and base service
+	for _, n := range aliasNames {
+		inc := mkf("inc_"+n+".thrift", "al."+n)
+		is := leafS(inc, "IS")
+		ie := &idl.Enum{Name: "IE", Values: []*idl.EnumValue{{Name: "A"}, {Name: "B"}}}
+		inc.Add(ie)
+		ix := &idl.Struct{Cat: "exception", Name: "IX", Fields: []*idl.Field{fld(1, "m", idl.T(idl.String))}}
+		inc.Add(ix)
+		ik := &idl.Const{Name: "IK", Type: i32, Value: idl.VI(3)}
+		inc.Add(ik)
+		ib := &idl.Service{Name: "IBase", Functions: []*idl.Function{{Name: "ping"}}}
+		inc.Add(ib)
+		top := mkf("top_"+n+".thrift", "al.top"+n+"pk")
+		top.Includes = []*idl.Include{{Path: inc.Path, File: inc}}
+		top.Add(&idl.Struct{Cat: "struct", Name: "TS", Fields: []*idl.Field{fld(1, "s", idl.StructT(is)), fld(2, "l", idl.ListOf(idl.StructT(is))), fld(3, "m", idl.MapOf(idl.T(idl.String), idl.StructT(is))),
+			{ID: 4, ExplicitID: true, Name: "e", Type: idl.EnumT(ie), Default: idl.VE(ie, ie.Values[1])}, {ID: 5, ExplicitID: true, Name: "k", Type: i32, Default: idl.VC(ik)}, {ID: 6, ExplicitID: true, Name: "o", Type: idl.StructT(is), Req: idl.ReqOptional}}})
+		top.Add(&idl.Const{Name: "TK", Type: idl.ListOf(idl.EnumT(ie)), Value: idl.VL(idl.VE(ie, ie.Values[0]))})
+		top.Add(&idl.Service{Name: "TSvc", Extends: ib, Functions: []*idl.Function{{Name: "f", Ret: idl.StructT(is), Args: []*idl.Field{fld(1, "a", idl.StructT(is)), fld(2, "b", idl.EnumT(ie))}, Throws: []*idl.Field{fld(1, "x", idl.StructT(ix))}}}})
+		out = append(out, prog{"alias", n, &idl.Program{Files: []*idl.File{top, inc}}, true})
+	}
 	// services: extends across files two levels, throws of the same type twice
 	{
 		b0 := mkf("b0.thrift", "ext.b0")
@@ -340,7 +366,7 @@ func structurePrograms() []prog {
 		b2.Includes = []*idl.Include{{Path: "b1.thrift", File: b1}, {Path: "b0.thrift", File: b0}}
 		b2.Add(&idl.Service{Name: "S2", Extends: s1, Functions: []*idl.Function{{Name: "f2", Ret: i32, Args: []*idl.Field{fld(1, "a", i32)}, Throws: []*idl.Field{fld(1, "e", idl.StructT(e0))}}}})
 		out = append(out, prog{"structure:service", "extends-two-levels-r", &idl.Program{Files: []*idl.File{b2, b1, b0}}, true})
-		t := mkf("tt.thrift", "thr.t")
+		t := mkf("tt.thrift", "thr.tpk")
 		ex := &idl.Struct{Cat: "exception", Name: "Ex", Fields: []*idl.Field{fld(1, "m", idl.T(idl.String))}}
 		t.Add(ex)
 		t.Add(&idl.Service{Name: "Sv", Functions: []*idl.Function{{Name: "f", Ret: i32, Throws: []*idl.Field{fld(1, "a", idl.StructT(ex)), fld(2, "b", idl.StructT(ex))}}}})
@@ -562,6 +588,9 @@ func main() {
 				}
 			}
 			cls := "compile:" + classOf(in) + ":" + errShape(msg)
+			if in.family == "alias" {
+				cls = "compile:alias:" + in.variant + ":" + in.it.Backend // the package name identifies the element (every message is a consequence of the shadowed alias)
+			}
 			if strings.HasPrefix(in.family, "kernel") || in.family == "pairs" {
 				cls = "compile:" + classOf(in) // the configuration identifies the element; the first message varies with the tier's kernel size
 			}
